@@ -226,7 +226,7 @@ namespace fs
             }
             iterator end() const
             {
-                if (split->small_note) // small note have no aligned parts, but apbegin > apend (means empty)
+                if (split->apbegin > split->apend) // no aligned parts (small note, or an empty range inside one block)
                     return iterator(split, split->apbegin); // therefore, end() should return apbegin for range-based loop
                 return iterator(split, split->apend);
             }
